@@ -5,7 +5,10 @@
    each other on the names the printer writes.  Hop (c) (printer/parser round trip) is C12;
    hop (b) (sympy's own parsing/auto-evaluation) is an oracle validated per line by the check. *)
 From Coq Require Import Reals String List.
+From ESRV Require Import Model.Shapes.
 From ESRV Require Import Model.NodeStr Model.SymSem Gen.GenSymtab Proofs.NodeStrProofs Proofs.SymtabProofs.
+From ESRV Require Gen.GenNodeStr.
+From ESRV Require Import Proofs.NodeStrGenProofs.
 Import ListNotations.
 Open Scope string_scope.
 
@@ -16,6 +19,39 @@ Print Assumptions C02_node_to_string_readable.
 Theorem C02_node_to_string_injective : forall t1 t2 : lt, nts t1 = nts t2 -> t1 = t2.
 Proof. exact node_to_string_injective. Qed.
 Print Assumptions C02_node_to_string_injective.
+
+(* ---- the same, for node_to_string as REGENERATED from generator.py on every run (Gen/GenNodeStr.v) ----
+   applied to the parent/left/right arrays of ANY shape (numbered in prefix order from off, embedded anywhere in a node list) and ANY
+   label list that is long enough, with fuel >= the number of nodes, the translated code never raises and returns the structural
+   rendering of the labelled tree; with C02_node_to_string_readable the string therefore determines the tree *)
+Theorem C02_code_node_to_string : forall u off p pre suf L fuel,
+  (length pre = off)%nat -> (off + Shapes.size u <= length L)%nat -> (Shapes.size u <= fuel)%nat ->
+  GenNodeStr.node_to_string fuel (Some off) (pre ++ arr u off p ++ suf)%list L
+  = Some (Some (NodeStr.node_to_string (lab u L off))).
+Proof. exact gen_node_to_string_arr. Qed.
+Print Assumptions C02_code_node_to_string.
+
+(* chained with check_tree (C01_check_tree_arrays): shape string -> arrays -> function string *)
+Theorem C02_code_check_tree_then_node_to_string : forall u L tr,
+  (2 <= Shapes.size u)%nat -> (Shapes.size u <= length L)%nat ->
+  check_tree (pre u) = Ok (true, Some (pre u), tr) ->
+  GenNodeStr.node_to_string (Shapes.size u) (Some 0%nat) tr L = Some (Some (NodeStr.node_to_string (lab u L 0))).
+Proof. exact check_tree_then_node_to_string. Qed.
+Print Assumptions C02_code_check_tree_then_node_to_string.
+
+(* complexity 0: the empty tree is written as the string 0 *)
+Theorem C02_code_empty_tree : forall idx L fuel, GenNodeStr.node_to_string (S fuel) idx [] L = Some (Some "0"%string).
+Proof. exact gen_node_to_string_empty. Qed.
+
+Example C02_ex_code_render :
+  GenNodeStr.node_to_string 4%nat (Some 0%nat) (arr (B (U Shapes.L) Shapes.L) 0%nat None) ["pow"; "exp"; "x"; "a0"]%string = Some (Some "pow(exp(x),a0)"%string)
+  /\ GenNodeStr.node_to_string 4%nat (Some 0%nat) (arr (B (U Shapes.L) Shapes.L) 0%nat None) ["-"; "exp"; "x"; "a0"]%string = Some (Some "(exp(x))-(a0)"%string).
+Proof. vm_compute. auto. Qed.
+(* a label list that is too short raises (IndexError), a dangling child index raises (tree[None]) *)
+Example C02_ex_code_raises :
+  GenNodeStr.node_to_string 4%nat (Some 0%nat) (arr (U Shapes.L) 0%nat None) ["exp"]%string = None
+  /\ GenNodeStr.node_to_string 4%nat (Some 0%nat) [mkNode 1%nat None None None] ["exp"]%string = None.
+Proof. vm_compute. auto. Qed.
 
 Theorem C02_generation_table_sound : sound1 gen_fun1 /\ sound2 gen_fun2.
 Proof. exact (conj gen1_sound gen2_sound). Qed.
